@@ -1,4 +1,5 @@
 """C05 — a part type accepts exactly the records with its signature overhangs"""
+import json
 import re
 
 import asm
@@ -11,7 +12,7 @@ TABLES = ["Kits", "Enzymes"]
 LAKE_TARGETS = ["Moclo.Props.C05", "Moclo.Tables.Kits", "Moclo.Tables.Enzymes"]
 THEOREMS = ["Moclo.C05." + t for t in ["narrowed_accepts_iff", "sig_narrows", "generic_eq", "part_eq", "part_accepts_iff", "kit_structures_derived", "characterize_spec"]]
 # reductions under which a failing case stays a case of this property (see shrink.py)
-SHRINK = {"strings": True, "freeze_if": ["real"]}
+SHRINK = {"strings": True, "freeze_if": ["real", "sigs"]}
 RULE = ("every signature-derived class of the kits and user-defined signatures (incl. degenerate IUPAC ones) over "
         "every enzyme geometry; records with a unique generic match: members of the type, members of sibling types, "
         "random overhangs, near-misses differing in one overhang letter, at a random rotation; part verdict compared "
@@ -96,8 +97,10 @@ def check_characterize(ctx, case):
         elif type(ent) not in cands or not ent.is_valid():
             ctx.fail("characterize returns a {} which is not an accepting candidate".format(type(ent).__name__), case)
         got = str(cands.index(type(ent))) if type(ent) in cands else "x"
-    except RuntimeError:
+    except RuntimeError as e:
         got = "none"
+        if type(e) is not RuntimeError:
+            ctx.fail("characterize raises {} instead of the documented RuntimeError".format(type(e).__name__), case)
         if accepting:
             ctx.fail("characterize raises RuntimeError although {} accepts {!r}".format(accepting[0].__name__, wd), case)
     except Exception as e:  # noqa
@@ -135,6 +138,54 @@ def check_characterize_concrete(ctx, case):
         ctx.fail("{}.characterize returns a {} which does not accept the record".format(cls.__name__, got[1]), case)
     ctx.note("characterize-concrete:" + got[0])
     ctx.case(case, nontrivial=bool(got[2]) if got[0] != "child-exception" else False, key=["cc", case["concrete"], wd])
+
+
+def check_lab_family(ctx, case):
+    """a laboratory's own part family: an abstract base that merely inherits `signature = NotImplemented`, two
+    concrete types under it, and (variant) a type derived from a *kit* type with another signature.  Every type
+    follows its own signature, and characterize() answers with an accepting candidate or RuntimeError — in a
+    forked child, so that nothing stays registered."""
+    from props.c06 import forked
+    enz = asm.enzyme(case["enz"])
+    M, _ = impl.generic_classes(enz)
+    words = case["words"]            # [(word, up, down)]
+    sigs = [tuple(x) for x in case["sigs"]]
+
+    def child():
+        Base = type("LabPart", (boot.AbstractPart, M), {"cutter": enz})
+        kids = [type("LabType%d" % i, (Base,), {"signature": sg}) for i, sg in enumerate(sigs)]
+        out = []
+        for (wd, u, d) in words:
+            acc = [k.__name__ for k in kids if T.evaluate(k, wd)[0] == "valid"]
+            exp = [k.__name__ for k, sg in zip(kids, sigs) if sigmatch(sg[0], u) and sigmatch(sg[1], d)]
+            try:
+                got = type(Base.characterize(impl.CircularRecord(impl.Seq(wd), id="c"))).__name__
+            except Exception as e:  # noqa
+                # the documented failure is RuntimeError itself ("could not find the type"), not a subclass such as
+                # the NotImplementedError of an abstract type whose structure was consulted
+                got = "RuntimeError" if type(e) is RuntimeError else "exc:" + type(e).__name__
+            out.append([wd, acc, exp, got])
+        # a type derived from a kit type, with its own signature
+        if case.get("kit"):
+            K = asm.cls_by_name(case["kit"])
+            V = type("Variant", (K,), {"signature": sigs[0]})
+            T.evaluate(K, words[0][0])                       # the kit type is used first
+            for (wd, u, d) in words:
+                v = T.evaluate(V, wd)[0] == "valid"
+                out.append([wd, ["Variant"] if v else [], ["Variant"] if sigmatch(sigs[0][0], u) and sigmatch(sigs[0][1], d) else [], "-"])
+        return out
+    res = forked(child)
+    if res and res[0] == "child-exception":
+        ctx.fail("a user-defined part family raised {}: {}".format(res[1], res[2]), case)
+        return
+    for wd, acc, exp, got in res:
+        if acc != exp:
+            ctx.fail("user-defined part types {} accept {!r}, but by their signatures {} should".format(acc, wd, exp), case)
+        elif got != "-" and ((exp and got not in exp) or (not exp and got != "RuntimeError")):
+            ctx.fail("characterize() over a user-defined family answers {} on {!r}; the accepting types are {}".format(
+                got, wd, exp or "none (RuntimeError expected)"), case)
+    ctx.note("lab-family")
+    ctx.case(case, nontrivial=True, key=["lab", case["enz"], json.dumps(case["sigs"]), case.get("kit")])
 
 
 def overhang_for(rng, sig, mode, pool):
@@ -227,6 +278,24 @@ def run(ctx):
         cname = "part:{}:{}:{}:{}".format(kind, str(enz), sig[0], sig[1])
         ctx.guard(check_case, {"cls": cname, "word": gen.rot(wd, rng.randrange(len(wd))), "real": [u, d],
                                "sibling": sibling_of(rng, asm.cls_by_name(cname))})
+    # a laboratory's own family (abstract base inheriting the NotImplemented signature) and variants of kit types
+    kit_parts = [c for c in derived if issubclass(c, boot.AbstractModule)]
+    for _ in range(ctx.budget(25, 600)):
+        use_kit = rng.random() < 0.5 and kit_parts
+        K = rng.choice(kit_parts) if use_kit else None
+        enz = K.cutter if K else rng.choice([e for e in boot.supported_enzymes() if abs(e.ovhg) >= 3])
+        k = abs(enz.ovhg)
+        sigs = [[gen.rnd(rng, k), gen.rnd(rng, k)], [gen.rnd(rng, k), "N" * k]]
+        words = []
+        for (u, d) in [tuple(sigs[0]), (sigs[1][0], gen.rnd(rng, k)), (gen.rnd(rng, k), gen.rnd(rng, k))] + \
+                ([K.signature] if K and set("".join(K.signature)) <= set("ACGT") else []):
+            try:
+                wd, _ = gen.gen_module(rng, enz, u, d, tries=200)
+            except RuntimeError:
+                continue
+            words.append([gen.rot(wd, rng.randrange(len(wd))), u, d])
+        if len(words) >= 2:
+            ctx.guard(check_lab_family, {"enz": str(enz), "sigs": sigs, "words": words, "kit": asm.cls_name(K) if K else None})
     # characterize over the kit part families
     bases = [c for c in (getattr(m, n, None) for m in boot.kit_modules().values() for n in dir(m))
              if isinstance(c, type) and issubclass(c, boot.AbstractPart) and c.__subclasses__()
@@ -267,7 +336,9 @@ _check_case = check_case
 
 
 def check_case(ctx, case):  # noqa: F811
-    if "concrete" in case:
+    if "sigs" in case:
+        ctx.guard(check_lab_family, case)
+    elif "concrete" in case:
         ctx.guard(check_characterize_concrete, case)
     elif "base" in case:
         ctx.guard(check_characterize, case)
